@@ -9,7 +9,7 @@ catalogue (scripts with sub-molecule and fractional totals) and the fixed-step c
 import itertools
 import math
 
-from mc import core, pool, models, eng, lifecycle as lc
+from mc import core, pool, models, eng, lifecycle as lc, tlaconf
 
 core.setup_paths()
 
@@ -19,6 +19,8 @@ KINDS = [(e, g) for e in ("euler", "tauleap", "gillespie") for g in ("grid", "gr
 
 _JOBS = None
 _ZYG = {}
+_TLA = {}          # operation string -> set of observation sequences the TLA+ model allows
+TLA_K = 3
 
 
 def _zyg():
@@ -137,6 +139,10 @@ def check_case(case):
     """Replay entry: one history or one simple case."""
     if case.get("sub") in ("termination", "steps", "extinction"):
         return check_simple(case)
+    if case.get("sub") == "tla":
+        nodes, edges, init, _ = tlaconf.run_tlc(TLA_K, len(case["ops"]), "replay")
+        allowed, _ = tlaconf.paths_by_ops(nodes, edges, init)
+        return [("%s:%s" % (PID, k), w) for k, w in tlaconf.replay(tuple(case["kind"]), TLA_K, case["ops"], allowed[case["ops"]], VARIANT)]
     kinds = [tuple(k) for k in case["kinds"]]
     hist = [(h[0], int(h[1])) for h in case["history"].split(",")]
     z = lc.Zygote("plain")
@@ -158,6 +164,16 @@ def _work(job):
             acc.count("cases:" + case["sub"])
             for key, what in res:
                 acc.violation(key, what, case)
+            continue
+        if j[0] == "tla":
+            _, kind, ops = j
+            lc.announce("tla %s %s" % (kind, ops))
+            res = tlaconf.replay(kind, TLA_K, ops, _TLA[ops], VARIANT)
+            acc.add(transitions=len(ops), traces=len(_TLA[ops]), evaluations=len(ops))
+            acc.count("tla_operation_sequences_replayed")
+            acc.count("tla_model_paths_validated", len(_TLA[ops]))
+            for key, what in res:
+                acc.violation("%s:%s" % (PID, key), what, {"sub": "tla", "kind": list(kind), "ops": ops})
             continue
         _, sub, kinds, hist = j
         viol, nops, nobs = lc.check_history(kinds, hist, _zyg(), variant=VARIANT)
@@ -211,6 +227,21 @@ def build_jobs(tier, seed0, d1=None, d2=None, two=True):
     jobs += [("simple", c) for c in exc]
     subs.append(("extinction catalogue: stochastic runs ending by zero total propensity (4 states x 2 engines x {grid,graph} x seeds), "
                  "then iterate / iterate_n(0) / iterate_n(2) / run(0) on the completed simulation", len(exc), len(exc)))
+    # model-based part: every path of TLC's state graph of spec/Lifecycle.tla is replayed on the implementation
+    try:
+        mo = 5 if tier == "quick" else 6
+        nodes, edges, init, summary = tlaconf.run_tlc(TLA_K, mo, "c10")
+        allowed, npaths = tlaconf.paths_by_ops(nodes, edges, init)
+        _TLA.clear()
+        _TLA.update(allowed)
+        kinds_t = KINDS if tier == "thorough" else [KINDS[0], KINDS[3], KINDS[4]]
+        for k in kinds_t:
+            jobs += [("tla", k, ops) for ops in sorted(allowed)]
+        subs.append(("TLA+ model spec/Lifecycle.tla (K=%d, MaxOps=%d): TLC %s; all %d paths (%d operation sequences) of its state "
+                     "graph replayed on %d engine kinds" % (TLA_K, mo, summary, npaths, len(allowed), len(kinds_t)),
+                     len(nodes) * len(kinds_t), len(allowed) * len(kinds_t)))
+    except tlaconf.ModelUnavailable as e:
+        subs.append(("TLA+ model conformance NOT RUN: %s" % str(e)[:300], 0, 0))
     stc = list(step_cases())
     jobs += [("simple", c) for c in stc]
     subs.append(("fixed-step completion count: 3 dt x 8 t_max x 2 engines x {grid,graph}", len(stc), len(stc)))
@@ -240,6 +271,8 @@ def _crash_tag(j, at):
 def describe(j):
     if j[0] == "simple":
         return j[1]
+    if j[0] == "tla":
+        return {"sub": "tla", "kind": list(j[1]), "ops": j[2]}
     return {"kinds": [list(k) for k in j[2]], "history": lc.hist_str(j[3])}
 
 
@@ -257,7 +290,9 @@ def run(ctx):
             continue
         if isinstance(r, pool.Crash):
             j = _JOBS[job[0]]
-            if j[0] == "simple":
+            if j[0] == "tla":
+                key = "%s:model-conformance:%s:%s" % (PID, r.kind, j[2])
+            elif j[0] == "simple":
                 key = "%s:%s:%s:%s:%s" % (PID, j[1]["sub"], r.kind, j[1]["engine"], j[1]["script"].get("isp", ""))
             else:
                 live2 = len(j[2]) > 1
